@@ -89,7 +89,9 @@ def gen(ctx):
     n = 600 if ctx.tier == "quick" else 6000
     for _ in range(n):
         nf = rng.choice([0, 1, 2, 3, 5, 8, 12])
-        fields = [(rng.choice(KEYS), rng.choice(["1", "2", "", "v w", "é"]) + str(i)) for i in range(nf)]
+        # values are everything between ": " and the line feed, verbatim: carriage returns, blanks and separators at either end included
+        fields = [(rng.choice(KEYS), rng.choice(["1", "2", "", "v w", "é", " ", "\r", "a\rb", ": ", "\t"]) + str(i) + rng.choice(["", "", "", "\r", " ", "\r\r", ": ", "\t"]))
+                  for i in range(nf)]
         binary = rng.choice([None, None, b"", b"xyz\n"])
         ops = []
         for _ in range(rng.choice([1, 3, 6, 12, 40])):
@@ -148,6 +150,11 @@ def gen(ctx):
             f = [(rng.choice(KEYS), str(i))] * rng.choice([0, 1, 2])
             frames.append(f)
             wire += b"".join(k.encode() + b": " + v.encode() + b"\n" for k, v in f) + b"list_OK\n"
+        if err and rng.random() < 0.5:
+            # what the failing command printed before it failed belongs to no frame
+            wire += b"".join(k.encode() + b": " + v.encode() + b"\n" for k, v in [(rng.choice(KEYS), "p" + str(j)) for j in range(rng.choice([1, 2, 5]))])
+            if rng.random() < 0.3:
+                wire += b"binary: 3\nabc\n"
         wire += b"ACK [7@1] {x} m\n" if err else b"OK\n"
         if nfr == 0 and not err:
             frames = [[]]
